@@ -676,3 +676,28 @@ def bulk_copies(scan):
                     ln = sp.expand(nb / szs[0])
             out.append((c.args[1], ln, c.args[0], c.line))
     return out
+
+
+def offset_copy_from_field(scan):
+    """how WakePotentialMap::update fills _offset from the field's wake potential, in one form whatever the spelling:
+    (source text, number of elements, line, plain) for std::copy_n(src, n, _offset.data()) or for the loop `_offset[i] = p[i]` over
+    i in [0, n) with p the pointer the field returned; plain is False when the stored value is anything but the source element"""
+    for c in scan.calls:
+        if c.callee == "std::copy_n" and len(c.args) == 3 and str(c.args[2]) == "data(_offset)":
+            return str(c.args[0]), c.args[1], c.line, True
+    st = [a for a in scan.accesses if a.kind == "store" and a.base == "_offset" and a.idx is not None and a.op == "=" and a.loops]
+    if len(st) == 1 and st[0].value is not None:
+        a = st[0]
+        L = a.loops[-1]
+        v = a.value
+        if isinstance(v, sp.Indexed) and len(v.indices) == 1 and sp.expand(v.indices[0] - a.idx[0]) == 0 and a.idx[0] == L.sym and L.lo == 0:
+            base = str(v.base)
+            # a local pointer stands for the call it was initialised from
+            for d in scan.locals.values():
+                if d.get("name") == base and isinstance(d.get("init"), dict):
+                    t_ = scan._try(d["init"])
+                    if t_ is not None:
+                        base = str(t_)
+            return base, L.hi, a.line, True
+        return str(v), L.hi, a.line, False
+    return None
